@@ -29,6 +29,16 @@ def lib():
 
 KINDS = ["cnt", "pole", "lag", "echo", "lag2", "echo8", "combo", "acc2"]
 CONSTS = ["1.0", "0.5", "2.0", "0.25", "3.0", "0.125", "7.0", "1.5"]
+POST_N = 8      # one ring size for every dsp-level delay (finding F2: the VM sizes every delay of a function like the first)
+
+
+def children_of(voices):
+    """index of each voice's cells among dsp's state children: vid -> (child index of the voice, child index of its post cell or None)"""
+    out, i = {}, 0
+    for v in voices:
+        out[v["vid"]] = (i, i + 1 if v.get("post") else None)
+        i += 2 if v.get("post") else 1
+    return out
 
 
 def wrapper(kind, depth):
@@ -55,7 +65,14 @@ def render(voices, observed, broken=False):
     body = Node("tup", [Node("var", f"c{observed[0]}"), Node("var", f"c{observed[1]}")])
     for v in reversed(voices):
         fname = v["kind"] if v["depth"] == 0 else f"w{v['depth']}_{v['kind']}"
-        body = Node("let", f"c{v['vid']}", Node("call", fname, [L(v["const"])], v["vid"]), body)
+        call = Node("call", fname, [L(v["const"])], v["vid"])
+        post = v.get("post")
+        if post and post["kind"] == "delay":
+            # the voice feeds a delay cell owned by dsp: the cell is a sibling site AFTER the voice's own state
+            call = Node("delay", POST_N, call, L("%d.0" % post["d"]), 1000 + post["pid"])
+        elif post and post["kind"] == "mem":
+            call = Node("mem", call, 1000 + post["pid"])
+        body = Node("let", f"c{v['vid']}", call, body)
     dsp = Fn("dsp", [], [], coregen.T(F, F), body, False, True)
     src = Prog([], defs, dsp).src()
     if broken:
@@ -75,9 +92,15 @@ def history(rng, nedits, total):
     """returns list of versions [(t_swap, voices, observed, broken)], version 0 at t=0"""
     vid = [0]
 
-    def new_voice():
+    def new_voice(post=True):
         vid[0] += 1
-        return dict(vid=vid[0], kind=rng.pick(KINDS), const=rng.pick(CONSTS), depth=0, born=None)
+        v = dict(vid=vid[0], kind=rng.pick(KINDS), const=rng.pick(CONSTS), depth=0, born=None)
+        if post and rng.chance(1, 3):
+            # a post-processing cell at the call site: `delay(8, voice(c), d)` or `mem(voice(c))`; its identity (pid)
+            # outlives a replacement of the voice inside it
+            vid[0] += 1
+            v["post"] = dict(pid=vid[0], kind="delay", d=1 + rng.below(POST_N - 1)) if rng.chance(3, 4) else dict(pid=vid[0], kind="mem", d=1)
+        return v
     voices = [new_voice() for _ in range(2 + rng.below(3))]
     versions = []
     times = sorted(set(1 + rng.below(total - 2) for _ in range(nedits)))
@@ -91,7 +114,7 @@ def history(rng, nedits, total):
     for t in times:
         kind = rng.weighted([("insert", 4), ("delete", 3), ("replace", 2), ("nest", 1), ("const", 3), ("broken", 2)])
         vs = [dict(v) for v in voices]
-        touched, fresh, ambiguous = set(), set(), False
+        touched, fresh, ambiguous, kept = set(), set(), False, set()
         if kind == "insert" or len(vs) <= 1:
             v = new_voice()
             vs.insert(rng.below(len(vs) + 1), v)
@@ -103,9 +126,15 @@ def history(rng, nedits, total):
         elif kind == "replace":
             i = rng.below(len(vs))
             old = vs[i]
-            v = new_voice()
+            keep_post = old.get("post") and rng.chance(2, 3)
+            v = new_voice(post=not keep_post)
             while v["kind"] == old["kind"]:
                 v["kind"] = rng.pick(KINDS)
+            if keep_post:
+                # only the voice INSIDE the post cell is replaced: the cell itself is an untouched site and must keep its
+                # content (the old voice's last outputs come out of it first)
+                v["post"] = dict(old["post"])
+                kept.add(v["vid"])
             vs[i] = v
             fresh.add(v["vid"])
         elif kind == "nest":
@@ -120,7 +149,7 @@ def history(rng, nedits, total):
         if not broken:
             voices = vs
         cur = vs if not broken else voices
-        untouched = [v["vid"] for v in cur if v["vid"] not in touched and v["vid"] not in fresh]
+        untouched = [v["vid"] for v in cur if v["vid"] not in touched and v["vid"] not in fresh] + sorted(kept) * 2
         versions.append(dict(t=t, voices=[dict(v) for v in cur], observed=pick_obs(cur, untouched) if not broken else versions[-1]["observed"],
                              broken=broken, edit=kind, touched=touched, fresh=fresh))
     return versions
